@@ -62,6 +62,8 @@ type reqSpec struct {
 	status  int    // 0: the handler sets none
 	early   int    // > 0: an informational 1xx header sent before the final status
 	failAt  int    // >= 0: the client is gone from its failAt-th body write on
+	strW    bool   // the client's ResponseWriter also implements io.StringWriter
+	trailer string // != "": value of the trailer the request body announces
 	method2 string // what a rewriting middleware in the chain turns the method into
 	uri2    string // ... and the request URI
 	hMethod string // method and request URI the wrapped handler must observe
@@ -141,7 +143,8 @@ func (m rewriteMw) Wrap(h http.Handler) http.Handler {
 			return
 		}
 		sp := w.specs[id]
-		r2 := r.Clone(r.Context())
+		// A shallow copy, as Request.WithContext makes.
+		r2 := r.WithContext(r.Context())
 		r2.Method = sp.method2
 		r2.RequestURI = sp.uri2
 		h.ServeHTTP(rw, r2)
@@ -278,6 +281,9 @@ func (w *world) innerHandler(rw http.ResponseWriter, r *http.Request) {
 	if !check("body", string(body), sp.body) || !observe() {
 		return
 	}
+	if sp.trailer != "" && !check("trailer X-Trailer (available once the body has been read)", r.Trailer.Get("X-Trailer"), sp.trailer) {
+		return
+	}
 	if sp.early != 0 {
 		rw.WriteHeader(sp.early)
 		k.Yield("handler.early")
@@ -315,6 +321,32 @@ type clientRW struct {
 	failAt int
 	writes int
 }
+
+// clientRWS is a client end that also offers WriteString, as the server's
+// own ResponseWriter does.
+type clientRWS struct{ *clientRW }
+
+func (c clientRWS) WriteString(s string) (int, error) { return c.clientRW.Write([]byte(s)) }
+
+// trailerBody is a request body that, as net/http's does, fills in the values
+// of the announced trailers - in the Trailer map of the request it belongs to -
+// when it reaches EOF.
+type trailerBody struct {
+	io.Reader
+	hdr http.Header
+	val string
+}
+
+func (b *trailerBody) Read(p []byte) (n int, err error) {
+	n, err = b.Reader.Read(p)
+	if err == io.EOF {
+		b.hdr["X-Trailer"] = []string{b.val}
+	}
+
+	return n, err
+}
+
+func (b *trailerBody) Close() error { return nil }
 
 var errClientGone = errors.New("verif: client went away")
 
@@ -484,7 +516,15 @@ func run(rc *kernel.RunCtx) {
 					sp.lMethod, sp.lURI = sp.method2, sp.uri2
 				}
 			}
+			sp.strW = tp.Bool(1, 3)
+			if tp.Bool(1, 5) {
+				sp.trailer = fmt.Sprintf("trailer-%d", id)
+			}
 			r := httptest.NewRequest(sp.method, sp.url, strings.NewReader(sp.body))
+			if sp.trailer != "" {
+				r.Trailer = http.Header{"X-Trailer": nil}
+				r.Body = &trailerBody{Reader: strings.NewReader(sp.body), hdr: r.Trailer, val: sp.trailer}
+			}
 			r.Host = sp.host
 			r.RemoteAddr = sp.raddr
 			r.RequestURI = sp.uri
@@ -515,7 +555,11 @@ func run(rc *kernel.RunCtx) {
 				sp := sp
 				k.Ask("request.begin", func() any { w.cur[ti] = sp.id; return nil })
 				rec := &clientRW{hdr: http.Header{}, failAt: sp.failAt}
-				pv, stack := serve(wrapped[sp.wrapped], rec, sp.req)
+				var crw http.ResponseWriter = rec
+				if sp.strW {
+					crw = clientRWS{rec}
+				}
+				pv, stack := serve(wrapped[sp.wrapped], crw, sp.req)
 				if pv != nil && !(sp.panics && pv == http.ErrAbortHandler) {
 					k.Report("panic", kernel.PanicSite(stack), fmt.Sprintf("ServeHTTP panicked: %v\n%s", pv, stack))
 
